@@ -297,7 +297,7 @@ static Plan make_plan(const PropCfg &cfg, uint64_t seed, bool thorough) {
   if (cfg.mode == 2) {
       // restrict to what both bindings express identically at the system-call level
       for (auto &op : plan.ops) if (op.kind == OP_DRAIN || op.kind == OP_RUN) { if (op.a == 1 || op.a == 5 || op.a == 6) op.a = 2; if (op.b == 1 || op.b == 5 || op.b == 6) op.b = 2; if (op.d > 0) op.d = -op.d; op.e = 0; }
-      for (auto &s : plan.starts) { s.clone = (seed >> 3) & 1; s.argv_null = s.fork; }  // reproc++ cannot express fork with arguments / start without
+      for (auto &s : plan.starts) { s.clone = (seed >> 3) & 1; s.argv_null = s.fork; if (s.fork) s.argv_empty = false; }  // reproc++ cannot express fork with arguments / start without
       for (auto &op : plan.ops) if (op.kind == OP_START) op.a &= ~1ll;  // no destroy in the forked child (C++ heap is not copied by the simulated fork)
       {
         std::vector<Fault> keep;
